@@ -53,14 +53,8 @@ Definition stm_full_ok (m : option (sptenmat Z)) (S : sparse Z) (o : option (ten
 
 (* Kruskal / Tucker / sum to dense *)
 Definition zk_spec := ktensor_full_spec 0%Z 1%Z Z.add Z.mul.
-Definition zk_impl := ktensor_full_impl 0%Z Z.add Z.mul.
 Definition zk_at := ktensor_full_at 0%Z Z.add Z.mul.
-(* single behaviour: the transliterated algorithm, the specification and pyttb's result coincide as data lists *)
-Definition kfull_ok (K : ktensor Z) (o : option (dense Z)) : bool :=
-  match o, zk_impl K with
-  | Some d, Some d' => dense_eqb (zk_spec K) d && dense_eqb d' d
-  | _, _ => false
-  end.
+(* kfull_ok: below, over the code with the rank-0 branch (Model/C01W3.v ktensor_full_code) *)
 Definition zt_full := ttensor_full 0%Z Z.add Z.mul.
 (* pyttb's own route: tensor.ttm (permute / reshape / matmul) mode by mode — Model/C01Ttm.v over Model/C02Dense.v *)
 Definition zt_full_impl := C01Ttm.ttensor_full_impl 0%Z Z.add Z.mul.
@@ -154,6 +148,14 @@ Definition from_array_ok (m o : option (sptenmat Z)) (A : dense Z) : bool :=
 
 (* ---------------------------------------------------------------- third wave (Model/C01W3.v) *)
 From PV Require Import Model.C01W3.
+(* ktensor.full as the code is (rank-0 branch of /repo d9f07bf, single-mode branch, min_split_dims route) *)
+Definition zk_impl := ktensor_full_code 0%Z Z.add Z.mul.
+(* single behaviour: the transliterated algorithm, the specification and pyttb's result coincide as data lists *)
+Definition kfull_ok (K : ktensor Z) (o : option (dense Z)) : bool :=
+  match o, zk_impl K with
+  | Some d, Some d' => dense_eqb (zk_spec K) d && dense_eqb d' d
+  | _, _ => false
+  end.
 Definition zstm_ctor_nocopy := @stm_ctor_nocopy Z.
 (* sptenmat(..., copy=False): accept / reject as the guards predict; the stored triples are the arguments as given;
    to_sptensor and full give the model's objects (raw) *)
@@ -192,3 +194,11 @@ Definition zk_to_tenmat := ktensor_to_tenmat 0%Z Z.add Z.mul.
 Definition zk_double := ktensor_double 0%Z Z.add Z.mul.
 Definition zt_double := ttensor_double 0%Z Z.add Z.mul.
 Definition zsum_double := sum_double 0%Z 1%Z Z.add Z.mul.
+
+(* ---------------------------------------------------------------- fourth wave (Model/C01W4.v) *)
+From PV Require Import Model.C01W4.
+(* sumtensor.full / double as executed: every part densified by its own code route, shapes compared, data added *)
+Definition zsum_full_code := sum_full_code 0%Z Z.add Z.mul zisz.
+Definition zsum_double_code := sum_double_code 0%Z Z.add Z.mul zisz.
+Definition sumfull_code_ok (parts : list (part4 Z)) (o : option (dense Z)) : bool :=
+  opt_eqb dense_eqb (zsum_full_code parts) o && opt_eqb dense_eqb (zsum_double_code parts) o.
